@@ -5,6 +5,18 @@
   src/transaction.rs.  Validity of curve points, tweaks and proofs is delegated to
   a record of predicates (`Prims`): theorems quantify over it, the driver
   instantiates it with executable re-implementations of the libsecp parse rules.
+
+  Rust items transcribed here (read by tools/modelled_items.py): `impl Encodable for Value`,
+  `impl Decodable for Value`, `impl Encodable for Asset`, `impl Decodable for Asset`,
+  `impl Encodable for Nonce`, `impl Decodable for Nonce`, `Value::encoded_length`,
+  `Asset::encoded_length`, `Nonce::encoded_length`, `impl Encodable for AssetIssuance`,
+  `impl Decodable for AssetIssuance` (macro `impl_consensus_encoding!`), `impl Encodable for OutPoint`,
+  `impl Decodable for OutPoint`, `OutPoint::null`, `OutPoint::is_null`, `impl Encodable for TxIn`,
+  `impl Decodable for TxIn`, `TxIn::has_issuance`, `TxIn::is_coinbase`, `TxInWitness::is_empty`,
+  `TxOutWitness::is_empty`, `impl Encodable for TxOut`, `impl Decodable for TxOut`,
+  `impl Encodable for Transaction`, `impl Decodable for Transaction`, `Transaction::has_witness`,
+  `Transaction::scaled_size`, `Transaction::size`, `Transaction::weight`, `Transaction::vsize`,
+  `Transaction::discount_weight`, `Transaction::discount_vsize`, `Transaction::txid`, `Transaction::wtxid`.
 -/
 import EV.Model.Codec
 namespace EV
